@@ -40,6 +40,14 @@ inductive IEv where
       `returned`, blocked `elsewhere`), `st0`/`st1` = the state the environment reported before the second
       caller was issued / after that sighting. Not a main-flow item: judged on its own (`overlapsOf`). -/
   | overlap (how st0 st1 : String)
+  /-- pair `(P q1 q2 holdMs)`: the second sighting, `holdMs` after the first, q1's gate still closed (the
+      command of its task phase still unanswered): `first` = `inside` | `returned` (has q1 returned to its
+      caller?), `second` = `queued` | `returned` | `inside` (q2 got into its critical section) | `elsewhere`,
+      `st` = the state reported then. Not a main-flow item. -/
+  | held (first second st : String)
+  /-- the command of a real body of `e` reached the task manager while `n` earlier commands of the
+      environment were still unanswered: two task phases at a time. Never predicted by the model. -/
+  | bodyOverlap (e : String) (n : Nat)
   deriving Repr, BEq, Inhabited
 
 abbrev ITrace := List IEv
@@ -51,6 +59,13 @@ def IEv.isCall : IEv → Bool
 
 def IEv.isOverlap : IEv → Bool
   | .overlap .. => true
+  | _ => false
+
+/-- the records about overlapping requests: judged on their own (`monitorParH`), not main-flow items -/
+def IEv.isSide : IEv → Bool
+  | .overlap .. => true
+  | .held .. => true
+  | .bodyOverlap .. => true
   | _ => false
 
 /-! ### model → observable alphabet -/
@@ -205,6 +220,8 @@ def collectObs : ITrace → (pos seq : Nat) → (open_ : List (Nat × Nat × Nat
         collectObs rest pos (seq + 1) (op.filter (fun o' => ¬ (o'.1 = h ∧ o'.2.1 = k)))
           (acc ++ [{ h := h, k := k, xsPos := o.2.2.1, xsSeq := o.2.2.2, xePos := pos, xeSeq := seq, ev := .xe h k f v st }])
   | .overlap .. :: rest, pos, seq, op, acc => collectObs rest pos (seq + 1) op acc     -- not a main-flow item
+  | .held .. :: rest, pos, seq, op, acc => collectObs rest pos (seq + 1) op acc
+  | .bodyOverlap .. :: rest, pos, seq, op, acc => collectObs rest pos (seq + 1) op acc
   | _ :: rest, pos, seq, op, acc => collectObs rest (pos + 1) (seq + 1) op acc
 
 def findObs (os : List CallObs) (h k : Nat) : Option CallObs := os.find? (fun o => o.h = h ∧ o.k = k)
@@ -228,7 +245,7 @@ def monitorItems (items : List MItem) (tr : ITrace) : Option String :=
     let fixed := fixedCalls calls
     let mAll := canon (modelMain items ++ fixed.map fun c => .xe c.inst.hook c.inst.k c.inst.fails c.inst.snap c.inst.st.name)
     let iFixed := fixed.filterMap fun c => (findObs obs c.inst.hook c.inst.k).map (·.ev)
-    let iAll := canon (tr.filter (fun e => !e.isCall && !e.isOverlap) ++ iFixed)
+    let iAll := canon (tr.filter (fun e => !e.isCall && !e.isSide) ++ iFixed)
     if obs.length != calls.length then
       some s!"model executes {calls.length} calls, implementation {obs.length}"
     else if iFixed.length != fixed.length then some "a call the model executes was not observed"
@@ -296,5 +313,38 @@ def monitorPar (hooks : List Hook) (nTasks : Nat) (reqs : List PReq) (tr : ITrac
     let m := overlapItems hooks nTasks {} reqs
     if overlapsOf tr == m then none
     else some s!"overlapping pairs: model {repr m} vs implementation {repr (overlapsOf tr)}"
+
+/-! ### pairs whose first request has a SLOW task phase: `(P q1 q2 holdMs)`
+
+  `holds` runs parallel to the request list (0 / missing = no hold). For a pair with a hold whose first
+  request gets as far as a gate point the model predicts, besides the first sighting, the second one: the
+  first request is still inside (its command is unanswered: `Transition.do` has not returned, and
+  handlerFunc waits for it for as long as it takes — `C01_task_phase_is_synchronous_is_code`), the second
+  still queues, the state has not moved (`C01_task_phases_never_overlap`: under every schedule a caller whose
+  task phase is open holds the mutex, so nobody else is carried out). A second command in flight
+  (`IEv.bodyOverlap`) is never predicted. -/
+def overlapItemsH (hooks : List Hook) (nTasks : Nat) : Env → List PReq → List Nat → List IEv
+  | _, [], _ => []
+  | env, .one q :: qs, hs => overlapItemsH hooks nTasks (step hooks nTasks env q).1 qs hs.tail
+  | env, .par a b :: qs, hs =>
+    let r1 := step hooks nTasks env a
+    let r2 := stepHeld hooks nTasks (!env.gone) r1.1 b
+    (if r1.2.1.any Step.isGate then
+       [IEv.overlap "queued" env.st.name env.st.name] ++
+         (if hs.headD 0 > 0 then [IEv.held "inside" "queued" env.st.name] else [])
+     else []) ++
+      overlapItemsH hooks nTasks r2.1 qs hs.tail
+
+def sidesOf (tr : ITrace) : List IEv := tr.filter IEv.isSide
+
+/-- `monitorPar` for request lists whose pairs may carry a hold; without holds and on traces without the new
+    records it is `monitorPar`. -/
+def monitorParH (hooks : List Hook) (nTasks : Nat) (reqs : List PReq) (holds : List Nat) (tr : ITrace) : Option String :=
+  match monitorItems (modelItemsPar hooks nTasks reqs) tr with
+  | some why => some why
+  | none =>
+    let m := overlapItemsH hooks nTasks {} reqs holds
+    if sidesOf tr == m then none
+    else some s!"overlapping pairs: model {repr m} vs implementation {repr (sidesOf tr)}"
 
 end EnvM
